@@ -15,7 +15,7 @@ import (
 )
 
 type CompDesc struct {
-	Nil                   bool
+	Nil                  bool
 	MT, MV, Ver, SID, MD *[]byte
 }
 
